@@ -266,6 +266,7 @@ func Run(r *hk.Run) {
 				c.b.Raw("pv " + pn + " " + hx(r.R.Pick([]string{"tag", "camliMember", "camliNodeType", "n", "camliContent"})))
 			}
 		}
+		var asked []*Cons
 		for k := 0; k < consPer; k++ {
 			depth := maxDepth
 			if k == 0 {
@@ -281,6 +282,7 @@ func Run(r *hk.Run) {
 				}
 			}
 			r.Hit("cons:" + class)
+			asked = append(asked, cons)
 			if ScratchRisk(cons) {
 				r.Hit("cons-region:valueinset-over-attr")
 			}
@@ -315,7 +317,38 @@ func Run(r *hk.Run) {
 				r.Sample(map[string]any{"blobs": len(mw.Blobs), "claims": len(mw.Claims), "constraint": trunc(cons.Words(), 200), "class": class})
 			}
 		}
+		// The corpus keeps receiving blobs: more arrive now that the world has been searched (and the
+		// sorted permanode lists have been built and cached), then the same searches are asked again.
+		arr := &Arrivals{}
+		for phase := 2; phase <= 3; phase++ {
+			GenArrivals(r.R, c.b, arr, r.Hit)
+			if len(c.b.Bad) > 0 {
+				r.Fail("world-build", strings.Join(c.b.Bad, "; "), "ok", "", r.CaseOps())
+				break
+			}
+			c.b.Raw("times")
+			again := append([]*Cons{{Camli: "permanode"}}, asked...)
+			for _, cons := range again {
+				if !ValidTop(cons) {
+					continue
+				}
+				class := "nonconstant"
+				if n := len(mw.matching(cons)); n == 0 || n == len(mw.Blobs) {
+					class = "constant"
+				}
+				for _, s := range []string{"-created", "-mod", "created", "unspec", "blobref", "unsorted"} {
+					for i, l := range []int{1, 2, -1} {
+						if i > 0 && mw.Expect(s, l, cons).Unsupported {
+							continue
+						}
+						r.Hit(fmt.Sprintf("phase%d:query-after-arrivals", phase))
+						c.query(s, l, cons, class)
+					}
+				}
+			}
+		}
 	}
+	_ = 0
 	h := r.Res.Histogram
 	if n := h["cons:nonconstant"] + h["cons:const-none"] + h["cons:const-all"]; n > 0 {
 		r.Note(fmt.Sprintf("generated constraints: %d, of which %d (%.1f%%) are not constant on their world (match some but not all blobs), %d match nothing, %d match everything",
